@@ -18,6 +18,7 @@ import OapiVerif.Model.IntParse
 import OapiVerif.Model.DateParse
 import OapiVerif.Model.UuidParse
 import OapiVerif.Model.SchemaOrder
+import OapiVerif.Model.Comment
 /-!
 Line-protocol driver: one JSON object per line in, one per line out.
 `{"fn": <name>, ...}` ↦ `{"ok": <result>}` or `{"err": "bad-op"}` (never a default).
@@ -361,6 +362,14 @@ def combineParamsD (j : Json) : Except String Json := do
     | .ok r => Json.mkObj [("ok", Json.arr (r.map fun d => Json.num d.tag).toArray)]
     | .error e => Json.mkObj [("error", e)])
 
+/-- `stringToGoCommentWithPrefix`: input and prefix as code point arrays; result = code points, and the line check. -/
+def commentD (j : Json) : Except String Json := do
+  let i ← j.getObjValAs? (Array Nat) "in"
+  let p ← j.getObjValAs? (Array Nat) "prefix"
+  let out := Comment.comment i.toList p.toList
+  pure (Json.mkObj [("out", Json.arr (out.map fun (c : Nat) => Json.num (JsonNumber.fromNat c)).toArray),
+    ("commented", Json.bool (Comment.allCommented out))])
+
 /-- `SortedSchemaKeys`: entries as {"k": [bytes…], "o": integer or null}; result = the keys in order. -/
 def schemaKeysD (j : Json) : Except String Json := do
   let es ← (← j.getObjVal? "entries").getArr?
@@ -567,6 +576,7 @@ def dispatch (fn : String) (j : Json) : Except String Json :=
   | "enumFlags" => enumFlagsD j
   | "combineParams" => combineParamsD j
   | "schemaKeys" => schemaKeysD j
+  | "comment" => commentD j
   | "parseInt" => parseIntD j
   | "parseDate" => parseDateD j
   | "parseUuid" => parseUuidD j
